@@ -11,6 +11,7 @@ package main
 import (
 	"bufio"
 	"compress/gzip"
+	"crypto/sha256"
 	"encoding/json"
 	"errors"
 	"fmt"
@@ -112,6 +113,7 @@ type Exec struct {
 	spec     *Spec
 	strs     map[string]bool // every string seen in this history (case / regex oracle tables)
 	lastFaultAt string
+	typ         Typ
 }
 
 func NewExec(root string, cfg Cfg, w *bufio.Writer, seed int64) *Exec {
@@ -120,6 +122,7 @@ func NewExec(root string, cfg Cfg, w *bufio.Writer, seed int64) *Exec {
 		rng: rand.New(rand.NewSource(seed)), failNext: -1}
 	e.db = sod.Open(root)
 	e.spec = NewSpec(cfg)
+	e.typ = types[1]
 	return e
 }
 
@@ -233,17 +236,26 @@ func safe(f func()) (p interface{}) {
 	return nil
 }
 
-func (e *Exec) rec(f Flat) *shape.Rec {
+func (e *Exec) rec(f Flat) sod.Object {
 	r := flatToRec(f)
 	if f.U != 0 {
 		r.Initialize(e.ustr(f.U))
 	}
-	return r
+	return e.typ.fromRec(r)
 }
 
 func (e *Exec) flat(o sod.Object) Flat {
-	r := o.(*shape.Rec)
+	r := toRec(o)
 	return recToFlat(r, e.unum(r.UUID()))
+}
+
+// of: a fresh object of the handle's current Go type
+func (e *Exec) of() sod.Object { return e.typ.mk() }
+
+func (e *Exec) ofU(u int) sod.Object {
+	o := e.typ.mk()
+	o.Initialize(e.ustr(u))
+	return o
 }
 
 func (e *Exec) schemaFor() sod.Schema {
@@ -455,7 +467,7 @@ func (e *Exec) step(t []string) {
 			i, _ := strconv.Atoi(p[0])
 			c.Cons[i] = p[1]
 		}
-		err := db.Create(&shape.Rec{}, e.schemaWith(c))
+		err := db.Create(e.of(), e.schemaWith(c))
 		if err == nil {
 			e.cfg.Cache, e.cfg.Async, e.cfg.Thr, e.cfg.To = c.Cache, c.Async, c.Thr, c.To
 			err2 := db.Create(&shape.Other{}, sod.DefaultSchema)
@@ -521,9 +533,7 @@ func (e *Exec) step(t []string) {
 		defer func() { e.emit("r %s %d", cls(err), n) }()
 	case "del":
 		u, _ := strconv.Atoi(t[1])
-		r := &shape.Rec{}
-		r.Initialize(e.ustr(u))
-		e.emit("r %s", cls(db.Delete(r)))
+		e.emit("r %s", cls(db.Delete(e.ofU(u))))
 	case "delall":
 		// the order in which DeleteAll removes files is Go map order: taken from the FS log
 		vshim.StartRecording()
@@ -540,18 +550,16 @@ func (e *Exec) step(t []string) {
 			}
 			e.emit("o order %s", strings.Join(us, " "))
 		}()
-		err := db.DeleteAll(&shape.Rec{})
+		err := db.DeleteAll(e.of())
 		defer e.emit("r %s", cls(err))
 	case "get", "getu":
 		u, _ := strconv.Atoi(t[1])
 		var o sod.Object
 		var err error
 		if t[0] == "get" {
-			r := &shape.Rec{}
-			r.Initialize(e.ustr(u))
-			o, err = db.Get(r)
+			o, err = db.Get(e.ofU(u))
 		} else {
-			o, err = db.GetByUUID(&shape.Rec{}, e.ustr(u))
+			o, err = db.GetByUUID(e.of(), e.ustr(u))
 		}
 		if err != nil {
 			e.emit("r %s", cls(err))
@@ -560,24 +568,22 @@ func (e *Exec) step(t []string) {
 		}
 	case "exist":
 		u, _ := strconv.Atoi(t[1])
-		r := &shape.Rec{}
-		r.Initialize(e.ustr(u))
-		ok, err := db.Exist(r)
+		ok, err := db.Exist(e.ofU(u))
 		e.emit("r %s %s", cls(err), b2s(ok))
 	case "count":
-		n, err := db.Count(&shape.Rec{})
+		n, err := db.Count(e.of())
 		e.emit("r %s %d", cls(err), n)
 	case "all":
 		var objs []sod.Object
 		var err error
-		if len(t) > 1 && t[1] == "assign" {
+		if len(t) > 1 && t[1] == "assign" && e.typ.name == "shape.Rec" {
 			var tgt []*shape.Rec
 			err = db.AssignAll(&shape.Rec{}, &tgt)
 			for _, o := range tgt {
 				objs = append(objs, o)
 			}
 		} else {
-			objs, err = db.All(&shape.Rec{})
+			objs, err = db.All(e.of())
 		}
 		fl := make([]Flat, 0, len(objs))
 		for _, o := range objs {
@@ -611,7 +617,7 @@ func (e *Exec) step(t []string) {
 		det := e.cfg.indexed(fld)
 		switch t[0] {
 		case "search":
-			s = db.Search(&shape.Rec{}, fieldName(fld), op, val)
+			s = db.Search(e.of(), fieldName(fld), op, val)
 		case "and":
 			s = old.s.And(fieldName(fld), op, val)
 			det = det && old.det
@@ -678,16 +684,16 @@ func (e *Exec) step(t []string) {
 		fld, _ := strconv.Atoi(t[1])
 		e.emit("r %s", e.assignIndex(fld))
 	case "commit":
-		e.emit("r %s", cls(db.Commit(&shape.Rec{})))
+		e.emit("r %s", cls(db.Commit(e.of())))
 	case "flushall":
-		e.emit("r %s", cls(db.FlushAll(&shape.Rec{})))
+		e.emit("r %s", cls(db.FlushAll(e.of())))
 	case "flushallc":
-		e.emit("r %s", cls(db.FlushAllAndCommit(&shape.Rec{})))
+		e.emit("r %s", cls(db.FlushAllAndCommit(e.of())))
 	case "control":
 		e.emit("r %s", cls(db.Control()))
 	case "repair":
 		before := e.snapshotIds()
-		err := db.Repair(&shape.Rec{})
+		err := db.Repair(e.of())
 		e.emit("o order %s", e.newIdsOrder(before))
 		e.emit("r %s", cls(err))
 	case "close":
@@ -697,10 +703,20 @@ func (e *Exec) step(t []string) {
 		e.db = sod.Open(e.root)
 		e.searches = map[int]*srch{}
 		e.emit("r ok")
+	case "vopen":
+		// a new handle used through another Go struct of the same name (C17)
+		k, _ := strconv.Atoi(t[1])
+		e.db = sod.Open(e.root)
+		e.searches = map[int]*srch{}
+		e.typ = types[k]
+		e.emit("r ok")
+	case "dirhash":
+		e.emit("r ok")
+		e.emit("# hash %s", dirHash(e.root))
 	case "drop":
 		e.emit("r %s", cls(db.Drop()))
 	case "schema":
-		_, err := db.Schema(&shape.Rec{})
+		_, err := db.Schema(e.of())
 		e.emit("r %s", cls(err))
 	case "dump":
 		e.dump()
@@ -768,7 +784,7 @@ func (e *Exec) snapshotIds() map[uint64]bool {
 	m := map[uint64]bool{}
 	var s *sod.Schema
 	var err error
-	if safe(func() { s, err = e.db.Schema(&shape.Rec{}) }) != nil || s == nil || (err != nil && !sod.IsIndexCorrupted(err)) || s.ObjectIndex == nil {
+	if safe(func() { s, err = e.db.Schema(e.of()) }) != nil || s == nil || (err != nil && !sod.IsIndexCorrupted(err)) || s.ObjectIndex == nil {
 		return m
 	}
 	e.db.RLock()
@@ -783,7 +799,7 @@ func (e *Exec) snapshotIds() map[uint64]bool {
 func (e *Exec) newIdsOrder(before map[uint64]bool) string {
 	var s *sod.Schema
 	var err error
-	if safe(func() { s, err = e.db.Schema(&shape.Rec{}) }) != nil || s == nil || (err != nil && !sod.IsIndexCorrupted(err)) || s.ObjectIndex == nil {
+	if safe(func() { s, err = e.db.Schema(e.of()) }) != nil || s == nil || (err != nil && !sod.IsIndexCorrupted(err)) || s.ObjectIndex == nil {
 		return ""
 	}
 	e.db.RLock()
@@ -804,7 +820,7 @@ func (e *Exec) newIdsOrder(before map[uint64]bool) string {
 
 // dump: the live index read through Schema() under the exported read lock
 func (e *Exec) dump() {
-	s, err := e.db.Schema(&shape.Rec{})
+	s, err := e.db.Schema(e.of())
 	if err != nil || s == nil || s.ObjectIndex == nil {
 		e.emit("r %s", cls(err))
 		return
@@ -841,7 +857,7 @@ func (e *Exec) assignIndex(fld int) string {
 	var err error
 	var toks []string
 	name := fieldName(fld)
-	of := &shape.Rec{}
+	of := e.of()
 	conv := func(n int, at func(i int) string) {
 		for i := 0; i < n; i++ {
 			toks = append(toks, at(i))
@@ -1223,4 +1239,20 @@ func (e *Exec) stray(kind string) string {
 		return cls(os.MkdirAll(filepath.Join(dir, e.ustr(len(e.uu))+".json"), 0700))
 	}
 	return "other"
+}
+
+// dirHash: digest of every file (relative name + bytes) under root
+func dirHash(root string) string {
+	h := sha256.New()
+	filepath.Walk(root, func(p string, info os.FileInfo, err error) error {
+		if err != nil || info.IsDir() {
+			return nil
+		}
+		rel, _ := filepath.Rel(root, p)
+		b, _ := os.ReadFile(p)
+		fmt.Fprintf(h, "%s\x00%d\x00", rel, len(b))
+		h.Write(b)
+		return nil
+	})
+	return hex.EncodeToString(h.Sum(nil))[:16]
 }
